@@ -10,13 +10,13 @@ META = {
     "level_text": "PatchChain.tla models the chain of patch_chain.rs (ordered insert with the code's tie rule, set_priority = remove + "
                   "re-insert, remove, clear, both parallel constructors, the or_insert map rebuild, patch-entry resolution) and states C08 "
                   "declaratively (Winner / PropRead / union); TLC checks Sorted, StableAmongEquals, MapIsWinner, ReadIsProp, ListIsUnion, "
-                  "sequential = parallel construction on every chain of <= 3 (thorough: 4) entries over 4 archives + a missing file, priorities {-1,0,5}. "
+                  "sequential = parallel construction on every chain of <= 3 entries without (thorough: <= 4 with) duplicate archives over 4 archives + a missing file, priorities {-1,0,5}; the three former deviations of the code are refuted on witness chains. "
                   "Ptch.tla is a reference semantics of PTCH/COPY/BSD0 (signed seek, strict sizes) model-checked against a closed form. "
                   "TLC then enumerates every transition (state x operation) of the chain model and patch plans (shape x mutation); the driver "
                   "replays them on a real wow_mpq::PatchChain over real .mpq files and on apply_patch; TLC validates every recorded answer.",
     "level_note": "Trusted: TLC; SHA-1/MD5 digests computed by the driver as opaque tokens; the driver's PTCH *encoder* (every applied file is "
                   "re-evaluated from its bytes by Ptch.tla). Histories are bounded (all transitions of the <= 2/3-entry model + random walks); "
-                  "archives are V1, listfile present, patch entries single-unit uncompressed.",
+                  "archives are V1..V4 (one each) with 4 KiB / 16 KiB sectors, listfile present; patch entries stored raw, single-unit compressed and sectored.",
     "technique": "TLA+ state machine + reference semantics; TLC model checking, TLC-generated histories / patch plans, TLC trace validation",
     "design_ref": "DESIGN.md section 5, C08",
     "crates": ["c08"],
@@ -58,9 +58,9 @@ def sig(b):
 
 def gen_cases(ctx, only=None):
     th = ctx.thorough
-    # every transition of the duplicate-free model with <= 2 (thorough: 3) entries: 5 052 / 36 102 histories;
-    # chains holding an archive twice are reached by the random walks below
-    env = {"GEN_MAXLEN": 3 if th else 2, "GEN_DUPS": 0, "GEN_WALK": 0}
+    # every transition of the model with <= 2 (thorough: 3) entries, an archive may be in the chain twice:
+    # 10 476 / 121 068 histories
+    env = {"GEN_MAXLEN": 3 if th else 2, "GEN_DUPS": 1, "GEN_WALK": 0}
     cases, n = ctx.gen("Gen_PatchChain", env=env, timeout=900, heap="6g")
     # long random histories (duplicates allowed), deterministic in VERIF_SEED
     depth, num = (30, 400) if th else (14, 60)
@@ -102,6 +102,8 @@ def run(ctx, cases=None, plans=None):
         bad += expand(res1["bad"], "chain")
         with open(trace) as f:
             for i, line in enumerate(f):
+                if i == 0:
+                    ctx.notes.append(f"verif_yield schedule perturbation active in the parallel constructors: {json.loads(line).get('hook')}")
                 if i in (1, 2, 3):
                     r = json.loads(line)
                     samples.append({k: r[k] for k in ("ev", "case", "op", "a", "p", "res", "chain") if k in r})
@@ -131,7 +133,7 @@ def run(ctx, cases=None, plans=None):
     }
     assumptions = ["archives carry a (listfile): the chain's map is built from Archive::list()",
                    "MD5/SHA-1 are collision free on the contents used",
-                   "patch entries are stored single-unit and uncompressed (the sectored / compressed patch-entry reader is exercised by C05/C01 only)"]
+                   "block tables of the world archives are stored uncompressed (the driver sets PATCH / COMPRESS / SINGLE_UNIT flags by re-encrypting them)"]
     return core.finish(ctx, "model_checking", cov, assumptions, bad, sig_fn=sig, trace=trace)
 
 
